@@ -36,6 +36,8 @@ def save_reload_histories(run, n, steps):
             kinds = [k for k in tl.READ_KINDS if rng.random() < 0.4]
             tl.live_reads(table, kinds)
             o = rand_op(rng, state)
+            if o["op"] == "csv":
+                continue
             ev = {"kind": "table", "op": o}
             if not events:
                 ev["pre"] = state
